@@ -67,7 +67,9 @@ def gen_twin(rng, tid):
     style = rng.choice(["sync", "sync", "sync", "async", "async", "boxed", "boxed", "method", "method_async"])
     t.style = style
     # how the boxed-future twins spell the pinning call (or return the async block unboxed)
-    pin = rng.choice(["Box::pin", "Box::pin", "std::boxed::Box::pin", "::std::boxed::Box::pin", None])
+    # ("inner": the shape older async-trait versions expand to - an async fn declared inside the
+    # function and called in `Box::pin(..)`)
+    pin = rng.choice(["Box::pin", "Box::pin", "std::boxed::Box::pin", "::std::boxed::Box::pin", None, "inner"])
     menu = arg_menu(style)
     lvl = rng.choice(LEVELS) if rng.random() < 0.6 else None
     t.level = lvl[1] if lvl else 3
@@ -308,6 +310,14 @@ def gen_twin(rng, tid):
             rt = ret_ty if shape != "display" else "i64"
             if pin is None:
                 return f"{a}fn {name}{gen}({', '.join(params)}) -> impl Future<Output = {rt}> + 'a {{\n        async move {{\n        {body_src}\n        }}\n    }}"
+            if pin == "inner":
+                fwd = []
+                for k in chosen:
+                    nm = menu[k]["names"]
+                    fwd.append(nm[0] if len(nm) == 1 else {"xy": "(x, y)", "p": "P { px, py }"}[k])
+                return (f"{a}fn {name}{gen}({', '.join(params)}) -> Pin<Box<dyn Future<Output = {rt}> + 'a>> {{\n"
+                        f"        async fn __{name}{gen}({', '.join(params)}) -> {rt} {{\n        {body_src}\n        }}\n"
+                        f"        Box::pin(__{name}({', '.join(fwd)}))\n    }}")
             return f"{a}fn {name}{gen}({', '.join(params)}) -> Pin<Box<dyn Future<Output = {rt}> + 'a>> {{\n        {pin}(async move {{\n        {body_src}\n        }})\n    }}"
         gen = f"<{', '.join(generics)}>" if generics else ""
         kw = "async fn" if style == "method_async" else "fn"
